@@ -47,6 +47,7 @@ func vAlphabet(thorough bool) []vRule {
 		{"Esc", `a)|(?:b`, ""},
 		{"End", `\b\1\b`, "pop"},
 		{"é", `é`, ""},
+		{"EOF", `;`, ""},
 	}
 	if thorough {
 		a = append(a, vRule{"Q", `"[^"]*"|\\.<>&`, ""}, vRule{"2d", `\d`, ""}, vRule{"", "", "include:B"}, vRule{"PushB", `<`, "push:B"}, vRule{"PushZ", `z`, "push:Z"}, vRule{"", "", "include:Z"})
@@ -254,7 +255,7 @@ func newNoPanic(rules Rules) (def *StatefulDefinition, err error, panicked inter
 // matches start at offset 0 (the rulesOK invariant Next's proof assumes: C03, C04, C07).
 func TestVerif_C03C04C07_New(t *testing.T) {
 	res := &verifResult{Check: "lexer.New", Property: "C03 C04 C07", Exhaustive: true,
-		Bound: "all rule maps with states Root (1-2 rules over the full alphabet), optional A (1-3 rules over {Ident, ws, Close/pop, return}; thorough: also 1-2 over the full alphabet, plus optional B with 1 rule) over the rule alphabet of vAlphabet (plain / lower-case / underscore-initial names, metacharacter and unbalanced patterns, push, pop, include, return; a non-ASCII lower-case name; thorough adds unknown targets and digit-initial names); plus 6 rule maps with chains of includes over 3-4 states and 3 with state names needing JSON escapes / a user rule named returnToParent; include cycles excluded",
+		Bound: "all rule maps with states Root (1-2 rules over the full alphabet), optional A (1-3 rules over {Ident, ws, Close/pop, return}; thorough: also 1-2 over the full alphabet, plus optional B with 1 rule) over the rule alphabet of vAlphabet (plain / lower-case / underscore-initial names, metacharacter and unbalanced patterns, push, pop, include, return; a non-ASCII lower-case name; a rule named EOF; thorough adds unknown targets and digit-initial names); plus 6 rule maps with chains of includes over 3-4 states and 3 with state names needing JSON escapes / a user rule named returnToParent; include cycles excluded",
 		Rule: "distinct rule maps; non-trivial = accepted by New and containing an action, include or return"}
 	seen := map[string]bool{}
 	for _, states := range vFamilies(verifThorough()) {
@@ -349,8 +350,10 @@ func TestVerif_C03C04C07_New(t *testing.T) {
 			}
 		}
 		for n := range names {
-			if _, ok := syms[n]; !ok {
+			if ty, ok := syms[n]; !ok {
 				res.violate("New(%s): rule name %q has no symbol", d, n)
+			} else if ty >= EOF {
+				res.violate("New(%s): the tokens of rule %q get type %d; EOF (%d) and above are not a rule's", d, n, ty, EOF)
 			}
 		}
 		if nontrivial {
@@ -386,9 +389,9 @@ func lexAll(def *StatefulDefinition, in string) (out string) {
 // tokens and errors on a set of inputs.
 func TestVerif_C16_JSON(t *testing.T) {
 	res := &verifResult{Check: "lexer JSON round trip", Property: "C16", Exhaustive: true,
-		Bound: "the rule maps of TestVerif_C03C04C07_New that New accepts; token streams compared on 12 inputs up to 6 bytes",
+		Bound: "the rule maps of TestVerif_C03C04C07_New that New accepts; the caller's rule map is edited after New (a pattern changed, a rule prepended to every state, a state added) before the definition is marshalled; token streams compared on 16 inputs up to 7 bytes",
 		Rule: "distinct accepted rule maps; non-trivial = contains an action, include or return"}
-	inputs := []string{"", "a", "ab c", "(a)", "((a))b", ")", "a_b", "b", "xxb", "< a", "\"q\"", "é1", "rr a", "a (a) r"}
+	inputs := []string{"", "a", "ab c", "(a)", "((a))b", ")", "a_b", "b", "xxb", "< a", "\"q\"", "é1", "rr a", "a (a) r", "a;b", "q w"}
 	seen := map[string]bool{}
 	for _, states := range vFamilies(verifThorough()) {
 		if includeCycle(states) {
@@ -419,7 +422,14 @@ func TestVerif_C16_JSON(t *testing.T) {
 		if !reflect.DeepEqual(normRules(rules), normRules(back)) {
 			res.violate("rule set %s changed by a JSON round trip: %s", d, data)
 		}
-		// (2) the definition
+		// (2) the definition; what the caller does with its rule map after New is none of the definition's business
+		for st := range rules {
+			if len(rules[st]) > 0 {
+				rules[st][0].Pattern = "zzz"
+			}
+			rules[st] = append([]Rule{{"Early", "q", nil}}, rules[st]...)
+		}
+		rules["Added"] = []Rule{{"Late", "w", nil}}
 		ddata, err := json.Marshal(def)
 		if err != nil {
 			res.violate("Marshal(def %s): %v", d, err)
